@@ -98,6 +98,149 @@ def run(ctx):
     r = ctx.rule("C02-R2", "EXC", "neither parse error escapes in lenient mode: every raise of them is in a strict arm, "
                  "or under the try in parse() that re-raises only when strict; lookups that can raise are guarded "
                  "by the matching has_*", reference=20)
+    lenient_total_rule(ctx, r)
+
+    # ---------------------------------------------------------------- R3
+    r = ctx.rule("C02-R3", "TABLE", "the parser raises only the two documented classes; an unknown option raises "
+                 "the no-such-option error", reference=9)
+    for m in pmeth:
+        cfg = ctx.cfg(m)
+        for n in cfg.nodes:
+            if n.kind != "raise":
+                continue
+            if n.ast.exc is None:
+                r.ok("%s: bare re-raise" % m.short)
+                continue
+            cls = cfg._raised_class(n.ast, None)
+            if cls in (cannot, nosuch):
+                g = guarded_by(cfg, n, lambda e: isinstance(e, ast.Call) and isinstance(e.func, ast.Attribute) and e.func.attr == "has_option", polarity=False)
+                if g is not None and cls is not nosuch:
+                    r.fail(m, n.ast, norm(n.ast), "an unknown option must be reported with NoSuchOptionException, not %s" % cls.name)
+                else:
+                    r.ok("%s: raises %s" % (m.short, cls.name))
+            else:
+                r.fail(m, n.ast, norm(n.ast), "the parser raises %s, which is not one of the documented parse errors" % (getattr(cls, "name", None) or getattr(cls, "__name__", None) or norm(n.ast.exc)))
+
+    # ---------------------------------------------------------------- R4
+    r = ctx.rule("C02-R4", "EXC", "a value that does not convert surfaces as ValueError: every builtin conversion in "
+                 "utils.string sits in a try that covers all classes it can raise and re-raises ValueError", reference=2)
+    conversion_exc_rule(ctx, r)
+
+    # ---------------------------------------------------------------- R5
+    r = ctx.rule("C02-R5", "RANGE", "the by-position existence test bounds the index on both sides (the parser asks "
+                 "for position len-1, which is -1 when nothing was collected)", reference=2)
+    for cname in ("clikit.api.args.format.args_format.ArgsFormat", "clikit.api.args.format.args_format_builder.ArgsFormatBuilder"):
+        c = ctx.cls(cname)
+        m = c.methods.get("has_argument")
+        ctx.require(m is not None, "%s.has_argument missing" % c.name)
+        cfg = ctx.cfg(m)
+        found = False
+        for ret in q.returns(m):
+            rn = cfg.node_of(ret)
+            g = guarded_by(cfg, rn, lambda e: isinstance(e, ast.Call) and isinstance(e.func, ast.Name) and e.func.id == "isinstance" and len(e.args) == 2 and norm(e.args[1]) == "int", polarity=True)
+            if g is None:
+                continue
+            found = True
+            v = ret.value
+            lower = upper = False
+            for cmp_ in [x for x in walk_no_nested(v) if isinstance(x, ast.Compare)]:
+                chain = [cmp_.left] + list(cmp_.comparators)
+                for i, op in enumerate(cmp_.ops):
+                    a, b = chain[i], chain[i + 1]
+                    is_len = lambda e: isinstance(e, ast.Call) and isinstance(e.func, ast.Name) and e.func.id == "len"
+                    is_zero = lambda e: isinstance(e, ast.Constant) and e.value in (0, -1)
+                    if (isinstance(op, (ast.Lt, ast.LtE)) and is_len(b)) or (isinstance(op, (ast.Gt, ast.GtE)) and is_len(a)):
+                        upper = True
+                    if (isinstance(op, (ast.LtE, ast.Lt)) and is_zero(a)) or (isinstance(op, (ast.GtE, ast.Gt)) and is_zero(b)):
+                        lower = True
+            if lower and upper:
+                r.ok("%s.has_argument(int): %s" % (c.name, norm(v)))
+            else:
+                r.fail(m, ret, norm(ret), "%s.has_argument(int) has no %s bound: has_argument(-1) is True for any format, and get_argument(-1) then "
+                       "raises IndexError (format without arguments) out of the parser" % (c.name, "lower" if not lower else "upper"))
+        if not found:
+            r.fail(m, m.node, "no int arm", "%s.has_argument has no by-position arm" % c.name)
+    # ---------------------------------------------------------------- R6
+    from .c05 import scratch_rule
+
+    r = ctx.rule("C02-R6", "RESET", "what one parse collected cannot influence the verdict on the next line: the "
+                 "parser's scratch attributes are re-initialised before their first use, also after a parse that "
+                 "ended in an error (same rule as C05-R1)", reference=2)
+    scratch_rule(ctx, r, parse)
+    # ---------------------------------------------------------------- R7
+    from .c01 import separator_facts, after_separator_total
+
+    r = ctx.rule("C02-R7", "GUARD", "surplus positionals after '--' are counted: with the separator flag cleared every "
+                 "drawn token reaches the positional parse, none is swallowed (same rule as the last clause of C01-R3)", reference=1)
+    pm_, cfg_, flag_, opt_calls_ = separator_facts(ctx)
+    if flag_ is None:
+        r.fail(pm_, pm_.node, "no separator flag", "_parse has no flag that is cleared at '--'")
+    else:
+        after_separator_total(ctx, r, pm_, cfg_, flag_, opt_calls_)
+    # ---------------------------------------------------------------- R8
+    r = ctx.rule("C02-R8", "EXC", "no IndexError escapes for an empty token: a constant index into a value freshly drawn from "
+                 "the token list (pop / next) is, on every feasible path from the draw, behind a test that the value is "
+                 "not empty (or inside a handler for IndexError)", reference=2)
+    drawn_index_rule(ctx, r, [m for m in parser.methods.values()])
+    # ---------------------------------------------------------------- R9
+    r = ctx.rule("C02-R9", "ORDER", "the test 'a value was given to an option that accepts none' sees the value as given: "
+                 "no assignment of None to it can reach the test except under an identity test with a non-string "
+                 "sentinel (an empty attached value, '--flag=', is still a value)", reference=1)
+    for m in parser.methods.values():
+        cfg = ctx.cfg(m)
+        for rz in q.raises(m):
+            if rz.exc is None or "not_accept" not in norm(rz.exc):
+                continue
+            for rn in cfg.nodes_of(rz):
+                g = guarded_by(cfg, rn, lambda e: isinstance(e, ast.Compare) and isinstance(e.ops[0], ast.IsNot) and isinstance(e.comparators[0], ast.Constant)
+                               and e.comparators[0].value is None and isinstance(e.left, ast.Name), polarity=True)
+                if g is None:
+                    r.fail(m, rz, norm(rz) + " unguarded", "the value-misuse error is not raised under a `<value> is not None` test")
+                    continue
+                x = g.ast.left.id
+                bad = None
+                for w in cfg.writes(lambda t: t == x):
+                    a = w.ast
+                    if not (isinstance(a, ast.Assign) and isinstance(a.value, ast.Constant) and a.value.value is None):
+                        continue
+                    if g.id not in cfg.reach([w.id]):
+                        continue
+                    sentinel = guarded_by(cfg, w, lambda e: isinstance(e, ast.Compare) and isinstance(e.ops[0], ast.Is) and isinstance(e.left, ast.Name) and e.left.id == x
+                                          and isinstance(e.comparators[0], ast.Constant) and not isinstance(e.comparators[0].value, str), polarity=True, kill_names=lambda e: set())
+                    if sentinel is None:
+                        bad = w
+                        break
+                if bad is not None:
+                    r.fail(m, bad.ast, norm(bad.ast) + " before value-misuse test", "%s can set %s to None for a string that was given, before the test that rejects a value on "
+                           "an option accepting none: '--flag=' is accepted, and '--opt= next' takes the next token as the value" % (m.short, x))
+                else:
+                    r.ok("%s: `%s` sees %s as given" % (m.short, norm(g.ast), x))
+    # ---------------------------------------------------------------- R10
+    from .c01 import sentinel_loops
+
+    r = ctx.rule("C02-R10", "SENTINEL", "surplus positionals are detected also when one of them is the empty string: loops over values "
+                 "drawn with next(it, None) end on that sentinel, not on a falsy value (same rule as C01-R6)", reference=2)
+    sentinel_loops(ctx, r, [f for f in p.all_functions() if f.module.name.startswith("clikit.args")])
+    if r.n == 0:
+        r.vacuous_ok = True
+    return ctx.results
+
+
+def _parser_facts(ctx):
+    p, cg = ctx.p, ctx.cg
+    parser = ctx.cls("clikit.args.default_args_parser.DefaultArgsParser")
+    parse = parser.methods.get("parse")
+    inner = parser.methods.get("_parse")
+    ctx.require(parse and inner, "DefaultArgsParser.parse/_parse missing")
+    cannot = ctx.cls("clikit.api.args.exceptions.CannotParseArgsException")
+    nosuch = ctx.cls("clikit.api.args.exceptions.NoSuchOptionException")
+    pmeth = [m for m in cg.reachable([parse], stop=lambda f: f.cls is None or parser not in f.cls.mro).values() if f_in(m, parser)]
+    return p, cg, parser, parse, inner, cannot, nosuch, pmeth
+
+
+def lenient_total_rule(ctx, r):
+    """EXC rule shared with C09 (the help switch is found through a lenient parse of the whole line)."""
+    p, cg, parser, parse, inner, cannot, nosuch, pmeth = _parser_facts(ctx)
     # is the call of _parse inside such a try?
     cfgp = ctx.cfg(parse)
     protected = set()
@@ -173,30 +316,10 @@ def run(ctx):
                 else:
                     r.fail(parse, cs.node, norm(cs.node), "%s looks the name up in the format and raises if it is unknown; not guarded by %s" % (t.short, has))
 
-    # ---------------------------------------------------------------- R3
-    r = ctx.rule("C02-R3", "TABLE", "the parser raises only the two documented classes; an unknown option raises "
-                 "the no-such-option error", reference=9)
-    for m in pmeth:
-        cfg = ctx.cfg(m)
-        for n in cfg.nodes:
-            if n.kind != "raise":
-                continue
-            if n.ast.exc is None:
-                r.ok("%s: bare re-raise" % m.short)
-                continue
-            cls = cfg._raised_class(n.ast, None)
-            if cls in (cannot, nosuch):
-                g = guarded_by(cfg, n, lambda e: isinstance(e, ast.Call) and isinstance(e.func, ast.Attribute) and e.func.attr == "has_option", polarity=False)
-                if g is not None and cls is not nosuch:
-                    r.fail(m, n.ast, norm(n.ast), "an unknown option must be reported with NoSuchOptionException, not %s" % cls.name)
-                else:
-                    r.ok("%s: raises %s" % (m.short, cls.name))
-            else:
-                r.fail(m, n.ast, norm(n.ast), "the parser raises %s, which is not one of the documented parse errors" % (getattr(cls, "name", None) or getattr(cls, "__name__", None) or norm(n.ast.exc)))
 
-    # ---------------------------------------------------------------- R4
-    r = ctx.rule("C02-R4", "EXC", "a value that does not convert surfaces as ValueError: every builtin conversion in "
-                 "utils.string sits in a try that covers all classes it can raise and re-raises ValueError", reference=2)
+def conversion_exc_rule(ctx, r):
+    """EXC rule shared with C07: builtin conversions in utils.string surface as ValueError."""
+    p = ctx.p
     smod = p.modules.get("clikit.utils.string")
     ctx.require(smod is not None, "clikit.utils.string missing")
     for fn in [f for f in smod.functions.values() if f.name.startswith("parse_")]:
@@ -232,48 +355,135 @@ def run(ctx):
             if n.exc is not None and not norm(n.exc).startswith("ValueError"):
                 r.fail(fn, n, norm(n), "converter raises %s instead of ValueError" % norm(n.exc)[:40])
 
-    # ---------------------------------------------------------------- R5
-    r = ctx.rule("C02-R5", "RANGE", "the by-position existence test bounds the index on both sides (the parser asks "
-                 "for position len-1, which is -1 when nothing was collected)", reference=2)
-    for cname in ("clikit.api.args.format.args_format.ArgsFormat", "clikit.api.args.format.args_format_builder.ArgsFormatBuilder"):
-        c = ctx.cls(cname)
-        m = c.methods.get("has_argument")
-        ctx.require(m is not None, "%s.has_argument missing" % c.name)
-        cfg = ctx.cfg(m)
-        found = False
-        for ret in q.returns(m):
-            rn = cfg.node_of(ret)
-            g = guarded_by(cfg, rn, lambda e: isinstance(e, ast.Call) and isinstance(e.func, ast.Name) and e.func.id == "isinstance" and len(e.args) == 2 and norm(e.args[1]) == "int", polarity=True)
-            if g is None:
-                continue
-            found = True
-            v = ret.value
-            lower = upper = False
-            for cmp_ in [x for x in walk_no_nested(v) if isinstance(x, ast.Compare)]:
-                chain = [cmp_.left] + list(cmp_.comparators)
-                for i, op in enumerate(cmp_.ops):
-                    a, b = chain[i], chain[i + 1]
-                    is_len = lambda e: isinstance(e, ast.Call) and isinstance(e.func, ast.Name) and e.func.id == "len"
-                    is_zero = lambda e: isinstance(e, ast.Constant) and e.value in (0, -1)
-                    if (isinstance(op, (ast.Lt, ast.LtE)) and is_len(b)) or (isinstance(op, (ast.Gt, ast.GtE)) and is_len(a)):
-                        upper = True
-                    if (isinstance(op, (ast.LtE, ast.Lt)) and is_zero(a)) or (isinstance(op, (ast.GtE, ast.Gt)) and is_zero(b)):
-                        lower = True
-            if lower and upper:
-                r.ok("%s.has_argument(int): %s" % (c.name, norm(v)))
-            else:
-                r.fail(m, ret, norm(ret), "%s.has_argument(int) has no %s bound: has_argument(-1) is True for any format, and get_argument(-1) then "
-                       "raises IndexError (format without arguments) out of the parser" % (c.name, "lower" if not lower else "upper"))
-        if not found:
-            r.fail(m, m.node, "no int arm", "%s.has_argument has no by-position arm" % c.name)
-    # ---------------------------------------------------------------- R6
-    from .c05 import scratch_rule
 
-    r = ctx.rule("C02-R6", "RESET", "what one parse collected cannot influence the verdict on the next line: the "
-                 "parser's scratch attributes are re-initialised before their first use, also after a parse that "
-                 "ended in an error (same rule as C05-R1)", reference=2)
-    scratch_rule(ctx, r, parse)
-    return ctx.results
+def _nonempty_fact(e, name):
+    """polarity (True/False) of the edge of cond ``e`` on which local ``name`` is known to be a non-empty string, or None."""
+    def is_x(n):
+        return isinstance(n, ast.Name) and n.id == name
+    if is_x(e):
+        return True
+    if isinstance(e, ast.UnaryOp) and isinstance(e.op, ast.Not) and is_x(e.operand):
+        return False
+    if isinstance(e, ast.Call) and isinstance(e.func, ast.Name) and e.func.id == "len" and e.args and is_x(e.args[0]):
+        return True
+    if isinstance(e, ast.Call) and isinstance(e.func, ast.Attribute) and e.func.attr == "startswith" and is_x(e.func.value) \
+            and e.args and isinstance(e.args[0], ast.Constant) and e.args[0].value:
+        return True
+    if isinstance(e, ast.Compare) and len(e.ops) == 1:
+        l, op, rr = e.left, e.ops[0], e.comparators[0]
+        if isinstance(rr, ast.Constant) and isinstance(rr.value, str) and is_x(l):
+            if isinstance(op, ast.Eq):
+                return True if rr.value != "" else False
+            if isinstance(op, ast.NotEq) and rr.value == "":
+                return True
+        if isinstance(l, ast.Constant) and isinstance(l.value, str) and is_x(rr):
+            if isinstance(op, ast.Eq):
+                return True if l.value != "" else False
+            if isinstance(op, ast.NotEq) and l.value == "":
+                return True
+        if isinstance(l, ast.Call) and isinstance(l.func, ast.Name) and l.func.id == "len" and l.args and is_x(l.args[0]) and isinstance(rr, ast.Constant) and isinstance(rr.value, int):
+            if isinstance(op, ast.Gt) and rr.value >= 0:
+                return True
+            if isinstance(op, ast.GtE) and rr.value >= 1:
+                return True
+            if isinstance(op, ast.Eq) and rr.value >= 1:
+                return True
+            if isinstance(op, ast.NotEq) and rr.value == 0:
+                return True
+            if isinstance(op, ast.Eq) and rr.value == 0:
+                return False
+            if isinstance(op, ast.Lt) and rr.value <= 1 and rr.value >= 0:
+                return False
+        # X.find(s) == 0 with a non-empty constant s
+        if isinstance(l, ast.Call) and isinstance(l.func, ast.Attribute) and l.func.attr in ("find", "index") and is_x(l.func.value) and l.args \
+                and isinstance(l.args[0], ast.Constant) and l.args[0].value and isinstance(rr, ast.Constant) and rr.value == 0 and isinstance(op, ast.Eq):
+            return True
+    return None
+
+
+def drawn_index_rule(ctx, r, funcs):
+    for m in funcs:
+        cfg = ctx.cfg(m)
+        draws = {}
+        for n in cfg.nodes:
+            a = n.ast
+            if n.kind == "stmt" and isinstance(a, ast.Assign) and isinstance(a.targets[0], ast.Name) and isinstance(a.value, ast.Call):
+                f = a.value.func
+                if (isinstance(f, ast.Attribute) and f.attr == "pop") or (isinstance(f, ast.Name) and f.id == "next"):
+                    draws.setdefault(a.targets[0].id, []).append(n)
+        if not draws:
+            continue
+        flagconds = {}
+        for c in cfg.conds():
+            e = c.ast
+            if isinstance(e, ast.Name):
+                flagconds[c.id] = (e.id, True)
+            elif isinstance(e, ast.UnaryOp) and isinstance(e.op, ast.Not) and isinstance(e.operand, ast.Name):
+                flagconds[c.id] = (e.operand.id, False)
+        for sub in walk_no_nested(m.node):
+            if not (isinstance(sub, ast.Subscript) and isinstance(sub.ctx, ast.Load) and isinstance(sub.value, ast.Name) and sub.value.id in draws
+                    and isinstance(sub.slice, ast.Constant) and isinstance(sub.slice.value, int)):
+                continue
+            x = sub.value.id
+            writes = {w.id for w in cfg.writes(lambda t: t == x)}
+            for site in cfg.nodes_of(sub):
+                # handled IndexError?
+                handled = False
+                for s_, k in cfg.succ[site.id]:
+                    sn = cfg.nodes[s_]
+                    if k == "e" and sn.kind == "except":
+                        caught = cfg._handler_classes(sn.ast)
+                        if caught == [] or any(isinstance(c_, type) and issubclass(IndexError, c_) for c_ in caught):
+                            handled = True
+                if handled:
+                    r.ok("%s: %s inside a handler for IndexError" % (m.short, norm(sub)))
+                    continue
+                bad = None
+                npaths = 0
+                for d in draws[x]:
+                    try:
+                        paths = cfg.paths(d.id, site.id)
+                    except OverflowError:
+                        bad = "too many paths"
+                        break
+                    for path in paths:
+                        if any(w in writes and w != d.id for w in path[1:-1]):
+                            continue  # another definition reaches on this path; judged from that definition
+                        # feasibility on flag-only conditions
+                        val = {}
+                        feasible = True
+                        fact = False
+                        for i, nid in enumerate(path):
+                            nd = cfg.nodes[nid]
+                            if nd.kind in ("T", "F") and nd.cond is not None:
+                                cnd = nd.cond
+                                if cnd.id in flagconds:
+                                    nm, pos = flagconds[cnd.id]
+                                    v = (nd.kind == "T") == pos
+                                    if nm in val and val[nm] != v:
+                                        feasible = False
+                                        break
+                                    val[nm] = v
+                                pol = _nonempty_fact(cnd.ast, x)
+                                if pol is not None and (nd.kind == "T") == pol:
+                                    fact = True
+                            elif nd.kind in ("stmt", "for") and nd.ast is not None:
+                                for w in list(val):
+                                    if any(wn.id == nid for wn in cfg.writes(lambda t, w=w: t == w)):
+                                        del val[w]
+                        if not feasible:
+                            continue
+                        npaths += 1
+                        if not fact:
+                            bad = "path without a non-emptiness test"
+                            break
+                    if bad:
+                        break
+                if bad:
+                    r.fail(m, sub, norm(sub), "%s indexes %s, drawn from the token list just before, where it can be the empty string (%s): "
+                           "an empty token raises IndexError out of the parser, in strict and lenient mode alike" % (m.short, x, bad))
+                else:
+                    r.ok("%s: %s non-empty on all %d feasible path(s) from the draw" % (m.short, norm(sub), npaths))
 
 
 def _strict_conjunct_guard(ctx, m, name_node):
